@@ -588,6 +588,39 @@ def build(ctx):
     return C.build_harness(ctx, "sync", srcs, extra_flags=["-include", shim], libs=["-lpthread"])
 
 
+def monitor_destroy_whatif(ctx, harness):
+    """INFORMATION, not a verdict: Monitor::set() signals after it released the mutex, like Signal::set() did before
+    fixes/sync/0001.  Here a waiter deletes the Monitor after a successful wait() while the setter has not signalled yet.
+    All schedules of that scenario are run on the implementation only; reported: how many touch the destroyed condition
+    variable with / without a spurious wake-up budget."""
+    res = {}
+    for spur in (0, 1):
+        scen = f"scen mon 0 5 0 1 {spur} 0 T:0:start-1,lock,wait,unlock,destroy,join-1 T:1:set"
+        pending, runs, flagged, example = [()], 0, 0, None
+        while pending and runs < 4000:
+            lines = ["reset", scen] + [f"run {sched_str(p)}" for p in pending]
+            out, rc, err = C.run_lines(harness, lines, timeout=300)
+            new = []
+            for p, line in zip(pending, out[2:]):
+                tr = Trace(line)
+                runs += 1
+                if not tr.ok:
+                    continue
+                if any("use-after-destroy" in f for f in tr.flags):
+                    flagged += 1
+                    example = example or sched_str(tr.choices())
+                ch = tr.choices()
+                for pos in range(len(p), len(tr.steps)):
+                    t, a, cands, _ = tr.steps[pos]
+                    new += [tuple(ch[:pos]) + (c,) for c in cands if c != (t, a)]
+            pending = new
+        res[f"spurious budget {spur}"] = {"scenario": scen, "schedules": runs, "touch the destroyed condition variable": flagged,
+                                          "example schedule": example}
+    ctx.cov["monitor_destroy_whatif"] = res
+    ctx.log("what-if Monitor destroyed by a waiter while set() is in progress: " +
+            "; ".join(f"{k}: {v['touch the destroyed condition variable']}/{v['schedules']} schedules" for k, v in res.items()))
+
+
 def stress(ctx):
     """uncontrolled run on real pthreads — a TEST guarding the shim, not part of the proof-level claim"""
     srcs = ["sync_stress.cpp"] + [C.REPO / "src" / f"{n}.cpp" for n in LIB_SOURCES]
@@ -719,7 +752,9 @@ def check(ctx):
         ctx.cov["samples"] = [scens[len(FIXED_SCENARIOS)].line(), scens[-1].line(), rscens[-1].line()] + FIXED_SCENARIOS[:2]
         if ex.diffs:
             C.report_diffs(ctx, ex.diffs, harness, driver, reference, C.default_eq, "sync-schedules")
-        # 4. the test on real pthreads
+        # 4. information: the Monitor::set() shape (see docs/sync.md)
+        monitor_destroy_whatif(ctx, harness)
+        # 5. the test on real pthreads
         stress(ctx)
     finally:
         try:
